@@ -353,7 +353,7 @@ def _zinit_loop_spec():
         else:
             canc = [e for e in events if e.kind == "call" and e.meth == "cancel"]
             out_cl.append(("output already done at registration: the forwarding callback ran at once (at most one cancel(), of this input)",
-                           z3.And(z3.BoolVal(len(on_out) == 0 and len(canc) <= 1), canc[0].recv == Val.id(fut) if canc else z3.BoolVal(True))))
+                           z3.And(z3.BoolVal(len(on_out) == 0 and len(canc) <= 1 and any(a == "not self.done()" and not b for a, b in st.decisions)), canc[0].recv == Val.id(fut) if canc else z3.BoolVal(True))))
         # completion of this input runs handle_done(this zipper, ITS OWN POSITION, this input) once
         def check_hd(hd, pc_state, immediate):
             f = z3.And(z3.BoolVal(len(hd) == 1), hd[0].args[0] == selfv.t, hd[0].args[1] == pos, hd[0].args[2] == fut) if len(hd) == 1 and len(hd[0].args) == 3 else z3.BoolVal(False)
